@@ -27,7 +27,10 @@ VOCAB = ["(", ")", "(", ")", "'", "#(", ".", "define", "lambda", "if", "set!", "
 
 POOL = ["0", "1", "-1", "2", "2147483647", "-2147483648", "1/2", "-7/2", "1.5", "-0.0", "1e30", "'()", "'(1 2)", "'(1 . 2)",
         "(vector 1 2 3)", "'#(1 2)", "(vector)", "\"s\"", "'a", "#t", "#f", "#\\a", "car", "(lambda (x) x)",
-        "(lambda x x)", "(make-vector 2 0)"]
+        "(lambda x x)", "(make-vector 2 0)",
+        # long printed forms with characters of 2, 3 and 4 bytes at every alignment (error messages quote the value)
+        "\"" + "\u0430\u0431\u0432\u0433 " * 16 + "\"", "\"x" + "\u03b1" * 55 + "\"", "\"xy" + "\u4e2d" * 40 + "\"",
+        "\"" + "a\U0001f600" * 30 + "\"", "'" + "\u03bb" * 90, "(list " + "\"\u00e9\u00e8\" " * 20 + ")"]
 
 BUILTINS = [("car", 1), ("cdr", 1), ("cons", 2), ("eqv?", 2), ("eq?", 2), ("not", 1), ("boolean=?", 2), ("+", 2), ("-", 2),
             ("*", 2), ("/", 2), ("=", 2), ("<", 2), ("<=", 3), ("max", 2), ("min", 2), ("abs", 1), ("sqrt", 1), ("floor", 1),
@@ -38,6 +41,16 @@ BUILTINS = [("car", 1), ("cdr", 1), ("cons", 2), ("eqv?", 2), ("eq?", 2), ("not"
             ("pair?", 1), ("null?", 1), ("procedure?", 1), ("newline", 0), ("-", 1), ("/", 1), ("+", 0), ("max", 1)]
 
 CLASS = re.compile(r"^\((ok|err \w+|panic|abort|timeout|outoffuel|disp[^ )]*)")
+
+
+def sanity_is_wrong(sanity, model_sanity):
+    """the sanity form must never crash and must evaluate as the (proved-about) model says: that is 3 unless the
+    input itself redefined + (a mutated program may do that)"""
+    if klass(sanity) in ("panic", "abort", "timeout"):
+        return True
+    if model_sanity.startswith("(outoffuel"):
+        return False
+    return sanity != model_sanity
 
 
 def klass(line):
@@ -123,7 +136,7 @@ def explore(ctx):
     sld = open(common.REPO + "/src/interpreter/library/include/scheme/base.sld").read()
     gram = open(common.REPO + "/src/parser/grammar.sld").read()
     lib_forms = re.findall(r"\(define[^\n]*\n(?:[ \t]+[^\n]*\n)*", sld)[:60] + re.findall(r"\(define-syntax[^\n]*\n(?:[ \t]+[^\n]*\n)*", gram)
-    add([mutate_tokens(ctx.rng, ctx.rng.choice(lib_forms)) for _ in range(300 if ctx.quick else 10000)], "mutated library sources", per=2)
+    add([mutate_tokens(ctx.rng, ctx.rng.choice(lib_forms)) for _ in range(300 if ctx.quick else 1500)], "mutated library sources", per=2)
     uni = []
     for _ in range(300 if ctx.quick else 10000):
         n = ctx.rng.randint(1, 8)
@@ -133,9 +146,10 @@ def explore(ctx):
     add(uni, "unicode and control characters")
     calls = []
     for name, arity in BUILTINS:
-        combos = list(itertools.product(POOL, repeat=arity)) if arity <= 1 else None
+        # all tuples for arity <= 2 (boundary pairs such as (-2147483648, -1) must not be left to chance)
+        combos = list(itertools.product(POOL, repeat=arity)) if arity <= 2 else None
         if combos is None:
-            nmax = 250 if ctx.quick else 4000
+            nmax = 400 if ctx.quick else 6000
             total = len(POOL) ** arity
             combos = [tuple(ctx.rng.choice(POOL) for _ in range(arity)) for _ in range(min(nmax, total))]
         for c in combos:
@@ -179,7 +193,7 @@ def explore(ctx):
                     ctx.violation({"lines": ["NEW 0 std", "EVAL 0 " + common.hexs(t), "EVAL 0 " + common.hexs(SANITY)],
                                    "meta": {"text": t, "kind": c["kind"]}}, ml[2 + 2 * j: 4 + 2 * j], [o, sanity],
                                   note="the implementation crashed on this input")
-            elif sanity != SANITY_OUT and k != "timeout":
+            elif k != "timeout" and sanity != SANITY_OUT and sanity_is_wrong(sanity, ml[2 + 2 * j + 1]):
                 insane += 1
                 if insane <= 5:
                     ctx.violation({"lines": c["lines"][: 2 + 2 * j + 2], "meta": {"text": t, "kind": c["kind"]}}, ml, il,
